@@ -316,6 +316,13 @@ type NonceSource func() [32]byte
 // 256-byte packet, validates it and sends the empty confirmation frame.
 // logTx makes the peer remember the stream span of every frame it sends.
 func (id *Identity) Accept(conn io.ReadWriteCloser, nonce [32]byte, logTx bool) (*Peer, error) {
+	return id.AcceptCoalesced(conn, nonce, logTx, nil, nil)
+}
+
+// AcceptCoalesced is Accept with further frames (extra payloads with their nonces) written behind
+// the empty confirmation frame in the very same Write, as a server does that has something to say
+// the moment a session is up.
+func (id *Identity) AcceptCoalesced(conn io.ReadWriteCloser, nonce [32]byte, logTx bool, extraNonces [][32]byte, extra [][]byte) (*Peer, error) {
 	pkt := make([]byte, HandshakeSize)
 	if n, err := io.ReadFull(conn, pkt); err != nil {
 		return nil, &HandshakeError{fmt.Sprintf("short-read(%d): %v", n, err)}
@@ -326,7 +333,12 @@ func (id *Identity) Accept(conn io.ReadWriteCloser, nonce [32]byte, logTx bool) 
 	}
 	peer := &Peer{Conn: conn, Params: p, keepTx: logTx, r: conn, rxOff: HandshakeSize}
 	peer.rx, peer.tx = p.ServerStreams()
-	if err := peer.Send(nonce, nil); err != nil {
+	if len(extra) > 0 {
+		err = peer.SendBatch(append([][32]byte{nonce}, extraNonces...), append([][]byte{nil}, extra...))
+	} else {
+		err = peer.Send(nonce, nil)
+	}
+	if err != nil {
 		return nil, err
 	}
 	return peer, nil
